@@ -84,15 +84,25 @@ connect = Fn(F, ["impl OsIpcSender", "connect"], ret="r", extra_params=TL,
     ],
     safety_props=["C11", "C18"])
 
+server_drop = Fn(F, ["impl Drop for OsIpcOneShotServer", "drop"], extra_params=TL,
+    requires=[Clause("unix.server_drop/requires.server_owns_its_listener", "old(l).open.contains(old(self).fd) && old(l).owned.contains(old(self).fd)")],
+    ensures=[
+        Clause("unix.server_drop/ensures.listener_closed_exactly_once_nothing_else",
+               "final(l).open == old(l).open.remove(old(self).fd) && final(l).owned == old(l).owned.remove(old(self).fd) && final(self).fd == old(self).fd", ["C08", "C11"]),
+    ],
+    rules=[AppendArg("B52", r"libc::close\(", LG, "close issued by the owner's Drop", rename="k_close_owned", min_count=1)],
+    safety_props=["C08", "C11"])
+
 UNIT = Unit(
     name="u9_ledger",
     prelude=["units/common.rs", "units/u9_ledger.rs"],
-    groups=[("impl OsIpcOneShotServer", [server_new, accept]), ("impl OsIpcSender", [connect])],
+    groups=[("impl OsIpcOneShotServer", [server_new, accept]), ("impl OsIpcSender", [connect]), ("impl OsIpcOneShotServer", [server_drop])],
     props=["C11", "C08"],
     prelude_clauses={
         "unix.accept/requires.accepted_descriptor_is_close_on_exec": ["C11"],
         "unix.server_new/requires.socket_is_close_on_exec": ["C11"],
         "unix.server/requires.close_only_raw_open_descriptors": ["C11"],
+        "unix.server_drop/requires.closes_only_its_own_open_descriptor": ["C08", "C11"],
         "unix.accept/requires.accepts_on_a_listening_socket": ["C08"],
         "unix.accept/requires.first_message_awaited_blocking": ["C08"],
         "unix.server_new/requires.listen_queue_holds_a_client_that_connects_before_accept": ["C08"],
